@@ -505,7 +505,9 @@ def run(ctx):
     class Fail(Exception): pass
     def real(what, fields, f):
         """a real writer/reader raising on a record of the documented domain is a violation with that record as replay"""
-        try: return f()
+        try: return with_timeout(f, seconds=10.0)      # a misaligned reader may take a garbage count for a list length and loop (almost) forever
+        except ImplTimeout:
+            pyviol.append({"record": what, "diff": ["does not terminate within 10 s (reader out of step with the writer?)"], "original": jd(fields)}); raise Fail()
         except Exception as e:
             pyviol.append({"record": what, "diff": ["raises %s" % type(e).__name__], "error": str(e)[:300], "original": jd(fields)}); raise Fail()
     events = [g_event() for _ in range(n_ev)]
